@@ -4,6 +4,17 @@ pub mod rng;
 pub mod util;
 pub mod drive;
 pub mod irdump;
+pub mod canon;
+pub mod cppgen;
+pub mod c05gen;
+pub mod c05inv;
+pub mod cgen;
+pub mod scan;
+pub mod builder_ops;
+pub mod postcanon;
+pub mod inv;
+pub mod c04gen;
+pub mod c01gen;
 pub mod allowmodel;
 pub mod allowgen;
 pub mod inventory;
